@@ -43,6 +43,48 @@ def witnesses():
     return [sg.make_hist(900001, (4096, 128, 1, 1), ["t0", "t1", "t2"], w1)]
 
 
+def boundary_delete(g, d, live, batches):
+    """DELETE by key range whose bound c is the SMALLEST or LARGEST key of one INSERT's batch (= of a row-set
+    while it is not compacted; the generator knows the inserts), or c - 1 / c + 1: `<= c`, `= c`, `< c`, `>= c`,
+    `> c`, BETWEEN with both ends on boundaries.  Inclusive vs exclusive bounds at row-set boundaries."""
+    r = g.r
+    bounds = []
+    for b in batches:
+        ks = [k for k in b if k in live]
+        if ks:
+            bounds += [min(ks), max(ks)]
+    if not bounds:
+        bounds = [0]
+
+    def pick():
+        return r.choice(bounds) + r.choice([0, 0, 0, 1, -1])
+    c = pick()
+    form = r.random()
+    if form < 0.3:
+        p, sql = ("cmp", 0, "le", c), "delete from t0 where a <= %d" % c
+    elif form < 0.45:
+        p, sql = ("cmp", 0, "eq", c), "delete from t0 where a = %d" % c
+    elif form < 0.55:
+        p, sql = ("cmp", 0, "lt", c), "delete from t0 where a < %d" % c
+    elif form < 0.65:
+        p, sql = ("cmp", 0, "ge", c), "delete from t0 where a >= %d" % c
+    elif form < 0.75:
+        p, sql = ("cmp", 0, "gt", c), "delete from t0 where a > %d" % c
+    else:
+        lo, hi = sorted([c, pick()])
+        p = ("and", ("cmp", 0, "ge", lo), ("cmp", 0, "le", hi))
+        sql = ("delete from t0 where a between %d and %d" if r.random() < 0.5 else "delete from t0 where a >= %d and a <= %d") % (lo, hi)
+    g.count("delete-at-rowset-boundary")
+
+    def holds(q, k):
+        if q[0] == "and":
+            return holds(q[1], k) and holds(q[2], k)
+        return {"ge": k >= q[3], "gt": k > q[3], "lt": k < q[3], "le": k <= q[3], "eq": k == q[3]}[q[2]]
+    for k in [k for k in live if holds(p, k)]:
+        live.discard(k)
+    return {"k": "delete", "table": "t0", "pred": p, "def": d, "sql": sql}
+
+
 def gen_keydel_hist(g, hid, big=False):
     """DELETE exactness x key-range scan: a keyed table (INT primary key in column 0, unique keys,
     C13's hypotheses) whose row-sets span SEVERAL blocks (small block sizes, or one big INSERT), and
@@ -61,6 +103,7 @@ def gen_keydel_hist(g, hid, big=False):
     g.count("keydel:block=%d" % opts[1])
     steps = [{"k": "create", "def": d, "sql": d.sql()}]
     live = set()
+    batches = []
     nxt = [0]
 
     def ins(n, dense):
@@ -75,11 +118,14 @@ def gen_keydel_hist(g, hid, big=False):
             nxt[0] = max(nxt[0], max(ks) + 1)
         r.shuffle(ks)
         live.update(ks)
+        batches.append(list(ks))
         rows = [(k, g.gen_val("INT", False)) for k in ks]
         sql = "insert into t0 values %s" % ", ".join("(%s, %s)" % (sg.sql_lit(a, "INT"), sg.sql_lit(b, "INT")) for a, b in rows)
         return {"k": "insert", "table": "t0", "rows": rows, "def": d, "sql": sql}
 
     def dele():
+        if r.random() < 0.35:
+            return boundary_delete(g, d, live, batches)
         keys = sorted(live) or [0]
         # bound positions: mostly past the first blocks, up to and past the end
         pos = r.choice([0.3, 0.45, 0.55, 0.6, 0.75, 0.9, 0.98, r.random()])
@@ -143,11 +189,14 @@ def gen_keyorder_hist(g, hid):
     steps = [{"k": "create", "def": d, "sql": d.sql()}]
     live = set()
 
+    batches = []
+
     def ins(ks):
         ks = [k for k in ks if k not in live]
         if not ks:
             ks = [max(live) + 1 if live else 0]
         live.update(ks)
+        batches.append(list(ks))
         rows = [(k, g.gen_val("INT", False)) for k in ks]
         sql = "insert into t0 values %s" % ", ".join("(%s, %s)" % (sg.sql_lit(a, "INT"), sg.sql_lit(b, "INT")) for a, b in rows)
         return {"k": "insert", "table": "t0", "rows": rows, "def": d, "sql": sql}
@@ -180,6 +229,8 @@ def gen_keyorder_hist(g, hid):
         return sets
 
     def dele():
+        if r.random() < 0.6:
+            return boundary_delete(g, d, live, batches)
         keys = sorted(live) or [0]
         c = keys[int(r.random() * len(keys))] + r.choice([0, 0, 1])
         form = r.random()
@@ -205,8 +256,12 @@ def gen_keyorder_hist(g, hid):
     g.count("keyorder:rowsets=%d" % nsets)
     for ks in irregular(nsets):
         steps.append(ins(ks))
-    # sometimes a DELETE before the compaction (the merge then runs over delete vectors)
+    # mostly: DELETEs while the row-sets are still apart (bounds on their smallest / largest keys), so the
+    # merge then also runs over delete vectors
+    for _ in range(r.choice([0, 1, 1, 2, 3])):
+        steps.append(dele())
     if r.random() < 0.3:
+        steps.append({"k": "reopen"})
         steps.append(dele())
     steps.append({"k": "compact"})
     for _ in range(r.randint(2, 5)):
